@@ -144,6 +144,11 @@ func c09ClientScenarios(tier string) []*Scenario {
 			fr = append(fr, alpha[i])
 			nm = append(nm, alpha[i].name)
 		}
+		if len(h) <= 2 || h[0] == 0 || h[0] == 3 || h[0] == 10 {
+			// the reverse role: every history of length <= 2 and those that start with headers,
+			// a message or a close for the RPC's stream
+			scs = append(scs, c09ReverseClientScenario(fr, nm, 0))
+		}
 		scs = append(scs, &Scenario{
 			Name: "c09/h1c/" + strings.Join(nm, ","), Prop: "C09",
 			Desc: fmt.Sprintf("real tunnel client runs one Bidi RPC against a scripted raw server that answers its new_stream with %v and then ends the tunnel", nm),
@@ -227,79 +232,7 @@ func c09ClientScenarios(tier string) []*Scenario {
 				})
 				w.Drain()
 			},
-			Check: func(w *World, x *Exec) []Violation {
-				vs := NoHang(x, "C09")
-				if x.Hang {
-					return vs
-				}
-				bad := func(rule, sig, d string) {
-					vs = append(vs, Violation{Prop: "C09", Rule: rule, Sig: sig, Detail: fmt.Sprintf("%v: %s\n%s", nm, d, w.Outcome())})
-				}
-				spec := &specClient{}
-				for _, f := range fr {
-					spec.step(f.mk())
-				}
-				var term *Event
-				got := 0
-				ce := w.EventsOf("caller:r1")
-				for i, e := range ce {
-					if e.Op == "recv" && e.OK() {
-						got++
-					}
-					if term == nil && e.Op == "recv" && !e.OK() {
-						term = &ce[i]
-					}
-				}
-				gaveUp := false
-				var tunErr *Event
-				for i, e := range w.Events {
-					if e.Actor == "env" && e.Op == "giveup" && term != nil && e.Step <= term.Step {
-						gaveUp = true
-					}
-					if e.Actor == "env" && e.Op == "err" {
-						tunErr = &w.Events[i]
-					}
-				}
-				if term == nil {
-					return vs
-				}
-				normal := term.Code == "EOF"
-				switch {
-				case spec.tunnelDead && !spec.deadAfterDone:
-					if normal {
-						bad("tunnel-level-violation-ends-tunnel", "peerc:rpc-ok-despite-tunnel-violation", "the history contains a tunnel-level violation ("+spec.why+") but the RPC ended OK")
-					}
-					if tunErr != nil && tunErr.OK() {
-						bad("tunnel-level-violation-ends-tunnel", "peerc:tunnel-violation-tolerated", "the history contains a tunnel-level violation ("+spec.why+") but the channel reports no error")
-					}
-				case spec.done && spec.ok && !spec.errored:
-					if !normal && gaveUp && term.Code == "Canceled" {
-						// the harness itself gave up on the RPC before the response arrived
-					} else if !normal {
-						bad("valid-response-accepted", "peerc:valid-response-rejected:"+term.Code, fmt.Sprintf("valid response history but the RPC ended with %s(%s)", term.Code, term.Err))
-					} else if got != spec.msgs {
-						bad("valid-response-accepted", "peerc:message-count", fmt.Sprintf("caller received %d messages, the history carries %d", got, spec.msgs))
-					}
-				case spec.done:
-					if normal {
-						bad("violation-fails-that-rpc", "peerc:rpc-ok-despite-violation", "the response history is invalid or ends with an error status, but the RPC ended OK")
-					}
-					if tunErr != nil && !tunErr.OK() && !spec.tunnelDead {
-						bad("stream-level-violation-keeps-tunnel", "peerc:tunnel-killed", fmt.Sprintf("stream-level violation but the channel failed with %s(%s)", tunErr.Code, tunErr.Err))
-					}
-				default:
-					// the peer never finished the stream: the RPC can only end by giving up
-					if normal {
-						bad("violation-fails-that-rpc", "peerc:rpc-ok-without-close", "the RPC ended OK although the peer never closed the stream")
-					}
-					_ = gaveUp
-				}
-				for _, wn := range mustWindows(w) {
-					bad("bounded-buffering", "peerc:receiver-window-corrupt", wn)
-				}
-				vs = append(vs, NoLeak(w, x, "C09")...)
-				return vs
-			},
+			Check: c09ClientCheck(fr, nm),
 		})
 	}
 	return scs
@@ -310,4 +243,182 @@ func c09bBound(n int, tier string) int {
 		return 1
 	}
 	return 0
+}
+
+// c09ClientCheck judges one server->client history against the client-role reference.
+func c09ClientCheck(fr []s2cFrame, nm []string) func(w *World, x *Exec) []Violation {
+	return func(w *World, x *Exec) []Violation {
+		vs := NoHang(x, "C09")
+		if x.Hang {
+			return vs
+		}
+		bad := func(rule, sig, d string) {
+			vs = append(vs, Violation{Prop: "C09", Rule: rule, Sig: sig, Detail: fmt.Sprintf("%v: %s\n%s", nm, d, w.Outcome())})
+		}
+		spec := &specClient{}
+		for _, f := range fr {
+			spec.step(f.mk())
+		}
+		var term *Event
+		got := 0
+		ce := w.EventsOf("caller:r1")
+		for i, e := range ce {
+			if e.Op == "recv" && e.OK() {
+				got++
+			}
+			if term == nil && e.Op == "recv" && !e.OK() {
+				term = &ce[i]
+			}
+		}
+		gaveUp := false
+		var tunErr *Event
+		for i, e := range w.Events {
+			if e.Actor == "env" && e.Op == "giveup" && term != nil && e.Step <= term.Step {
+				gaveUp = true
+			}
+			if e.Actor == "env" && e.Op == "err" {
+				tunErr = &w.Events[i]
+			}
+		}
+		if term == nil {
+			return vs
+		}
+		normal := term.Code == "EOF"
+		switch {
+		case spec.tunnelDead && !spec.deadAfterDone:
+			if normal {
+				bad("tunnel-level-violation-ends-tunnel", "peerc:rpc-ok-despite-tunnel-violation", "the history contains a tunnel-level violation ("+spec.why+") but the RPC ended OK")
+			}
+			if tunErr != nil && tunErr.OK() {
+				bad("tunnel-level-violation-ends-tunnel", "peerc:tunnel-violation-tolerated", "the history contains a tunnel-level violation ("+spec.why+") but the channel reports no error")
+			}
+		case spec.done && spec.ok && !spec.errored:
+			if !normal && gaveUp && term.Code == "Canceled" {
+				// the harness itself gave up on the RPC before the response arrived
+			} else if !normal {
+				bad("valid-response-accepted", "peerc:valid-response-rejected:"+term.Code, fmt.Sprintf("valid response history but the RPC ended with %s(%s)", term.Code, term.Err))
+			} else if got != spec.msgs {
+				bad("valid-response-accepted", "peerc:message-count", fmt.Sprintf("caller received %d messages, the history carries %d", got, spec.msgs))
+			}
+		case spec.done:
+			if normal {
+				bad("violation-fails-that-rpc", "peerc:rpc-ok-despite-violation", "the response history is invalid or ends with an error status, but the RPC ended OK")
+			}
+			if tunErr != nil && !tunErr.OK() && !spec.tunnelDead {
+				bad("stream-level-violation-keeps-tunnel", "peerc:tunnel-killed", fmt.Sprintf("stream-level violation but the channel failed with %s(%s)", tunErr.Code, tunErr.Err))
+			}
+		default:
+			// the peer never finished the stream: the RPC can only end by giving up
+			if normal {
+				bad("violation-fails-that-rpc", "peerc:rpc-ok-without-close", "the RPC ended OK although the peer never closed the stream")
+			}
+			_ = gaveUp
+		}
+		for _, wn := range mustWindows(w) {
+			bad("bounded-buffering", "peerc:receiver-window-corrupt", wn)
+		}
+		vs = append(vs, NoLeak(w, x, "C09")...)
+		return vs
+	}
+}
+
+// The same server->client histories, sent by a scripted network CLIENT that opened a reverse
+// tunnel to the real TunnelServiceHandler (whose reverse channel plays the tunnel-client role
+// over the server side of the carrier stream).
+func c09ReverseClientScenario(fr []s2cFrame, nm []string, bound int) *Scenario {
+	return &Scenario{
+		Name: "c09/h1rc/" + strings.Join(nm, ","), Prop: "C09",
+		Desc: fmt.Sprintf("a scripted network client opens a reverse tunnel to the real handler; the handler's pooled channel runs one Bidi RPC; the scripted peer answers its new_stream with %v and then hangs up", nm),
+		Opt:  Options{Level: "io", Bound: bound},
+		Run: func(w *World) {
+			var revCh grpctunnel.TunnelChannel
+			h := grpctunnel.NewTunnelServiceHandler(grpctunnel.TunnelServiceHandlerOptions{
+				OnReverseTunnelOpen: func(ch grpctunnel.TunnelChannel) { revCh = ch },
+			})
+			n := NewNet(w, "T")
+			n.Peer = DefaultPeer()
+			tunnelpb.RegisterTunnelServiceServer(n, h.Service())
+			w.Vals["raw:T0:server"] = true
+			var sawNew bool
+			peer := w.GoPeer("rawrevclient", func() {
+				ctx, cancel := context.WithCancel(metadata.AppendToOutgoingContext(context.Background(), "grpctunnel-negotiate", "on"))
+				defer cancel()
+				cs, err := tunnelpb.NewTunnelServiceClient(n).OpenReverseTunnel(ctx)
+				if err != nil {
+					return
+				}
+				reader := w.Go("rawrevclient-reader", false, func() {
+					for {
+						m, err := cs.Recv()
+						if err != nil {
+							return
+						}
+						if m.GetNewStream() != nil {
+							sawNew = true
+						}
+						w.Log(Event{Actor: "rawserver", Op: "got", Detail: c2sKind(m, dataLenC(m)), Idx: int(m.StreamId)})
+					}
+				})
+				w.Point("raw:send")
+				_ = cs.Send(fSettings(-1, 65536, 0, 1))
+				w.WaitUntil("raw:new-stream", func() bool { return sawNew || reader.Done || w.Vals["rpc-done"] != nil })
+				for _, f := range fr {
+					w.Point("raw:send")
+					if cs.Send(f.mk()) != nil {
+						break
+					}
+				}
+				w.Vals["peer-said-all"] = true
+				w.WaitUntil("raw:rpc-done", func() bool { return w.Vals["rpc-done"] != nil })
+				w.Point("raw:hangup")
+				_ = cs.CloseSend()
+				w.Join(reader)
+			})
+			w.WaitUntil("rev-open", func() bool { return revCh != nil || peer.Done })
+			if revCh == nil {
+				w.Vals["rpc-done"] = true
+				w.Join(peer)
+				return
+			}
+			spec := CallSpec{ID: "r1", Tag: 1, Method: "Bidi", Ops: []COp{{K: "new"}, {K: "send", Size: 3}, {K: "waitsaid"}, {K: "recvall"}, {K: "trailer"}}}
+			th := w.Go("caller:r1", true, func() { w.RunCall(h.AsChannel(), &spec) })
+			w.GoLow("fault:giveup", func() {
+				w.WaitUntil("giveup", func() bool { return w.cancelOf("r1") != nil })
+				w.Log(Event{Actor: "env", Op: "giveup"})
+				w.cancelOf("r1")()
+			})
+			w.Join(th)
+			w.WaitUntil("frames-consumed", func() bool {
+				select {
+				case <-revCh.Done():
+					return true
+				default:
+				}
+				if !w.RecvLoopsIdle() || w.Vals["peer-said-all"] == nil {
+					return false
+				}
+				for _, ms := range n.Streams {
+					if len(ms.c2s) > 0 {
+						return false
+					}
+				}
+				return true
+			})
+			w.Point("env:err")
+			em, ec := errFields(revCh.Err())
+			w.Log(Event{Actor: "env", Op: "err", Err: em, Code: ec})
+			w.Vals["rpc-done"] = true
+			w.Join(peer)
+			w.WaitUntil("tunnel-end", func() bool {
+				for _, ms := range n.Streams {
+					if !ms.Finished {
+						return false
+					}
+				}
+				return true
+			})
+			w.Drain()
+		},
+		Check: c09ClientCheck(fr, nm),
+	}
 }
